@@ -25,7 +25,7 @@ type Adv struct {
 
 // Kinds of adversarial items.
 var Kinds = []string{"forged-otherkey", "forged-pair-header", "forged-pair-data", "resigned-data-copy", "mutated-resigned", "unsigned-linked",
-	"garbage-signed", "keyless-signer-header", "keyless-signer-data", "sig-transplant", "past-height", "future-height", "wrong-chain", "own-address", "truncated", "bitflip", "random", "empty", "structured-junk"}
+	"garbage-signed", "keyless-signer-header", "keyless-signer-data", "sig-transplant", "past-height", "future-height", "wrong-chain", "own-address", "truncated", "bitflip", "random", "empty", "structured-junk", "resigned-header-copy", "garbage-signed-copy"}
 
 func signHeader(h *types.SignedHeader, k world.Keys) {
 	payload, err := h.Header.MarshalBinary()
@@ -150,6 +150,19 @@ func MakeAdv(rng *rand.Rand, p *world.Produced, kind string, i int, atk world.Ke
 		}
 		h.Signer = types.Signer{PubKey: atk.Pub, Address: addr}
 		signHeader(h, atk)
+		return []Adv{mk(h, kind)}
+	case "resigned-header-copy":
+		// the genuine header, field for field (so it has the genuine header's hash, which covers neither signer nor
+		// signature), re-signed by the attacker under the proposer's address
+		h := p.Header(i)
+		h.Signer = types.Signer{PubKey: atk.Pub, Address: addr}
+		signHeader(h, atk)
+		return []Adv{mk(h, kind)}
+	case "garbage-signed-copy":
+		// the genuine header with the proposer's key and address and a signature that is not the proposer's
+		h := p.Header(i)
+		h.Signature = make([]byte, 64)
+		rng.Read(h.Signature)
 		return []Adv{mk(h, kind)}
 	case "unsigned-linked":
 		h := forgeHeader(p, i, atk, nil, chain, addr)
